@@ -19,6 +19,8 @@ package golang
 //@ ensures [gen] action == ruler.ActionSign ==> (forall i int :: 0 <= i && i < len(rulesData) && result[i] == rules.APPROVED ==> hastype(rulesData[i].Data, "*rules.SignData") && prefix4(unbox(rulesData[i].Data, "*rules.SignData").Domain) != ATT && prefix4(unbox(rulesData[i].Data, "*rules.SignData").Domain) != PROP)
 //@ ensures [distinct] locking(action) ==> (forall i int, j int :: 0 <= i && i < j && j < len(rulesData) && result[i] == rules.APPROVED && result[j] == rules.APPROVED ==> bytes(rulesData[i].PubKey) != bytes(rulesData[j].PubKey))
 //@ ensures [access] action == ruler.ActionAccessAccount && credentials != nil && credentials.Client != "" && (forall j int :: 0 <= j && j < len(rulesData) ==> rulesData[j] != nil && rulesData[j].Data != nil) ==> (forall i int :: 0 <= i && i < len(rulesData) && hastype(rulesData[i].Data, "*rules.AccessAccountData") ==> result[i] == rules.APPROVED)
+//@ ensures [att-compl] action == ruler.ActionSignBeaconAttestation && store_ok && len(rulesData) > 0 && (forall j int :: 0 <= j && j < len(rulesData) ==> rulesData[j] != nil && rulesData[j].Data != nil && len(rulesData[j].PubKey) == 48) && (forall j int, k int :: 0 <= j && j < k && k < len(rulesData) ==> key48(rulesData[j].PubKey) != key48(rulesData[k].PubKey)) && credentials != nil && credentials.Client != "" && (forall j int :: 0 <= j && j < len(rulesData) ==> rulesData[j].AccountName != "" && hastype(rulesData[j].Data, "*rules.SignBeaconAttestationData")) && (forall j int :: 0 <= j && j < len(rulesData) ==> old(wmAttOk(bytes(rulesData[j].PubKey)))) ==> (forall i int :: 0 <= i && i < len(rulesData) && attOK(old(wmAttS(bytes(rulesData[i].PubKey))), old(wmAttT(bytes(rulesData[i].PubKey))), unbox(rulesData[i].Data, "*rules.SignBeaconAttestationData").Source.Epoch, unbox(rulesData[i].Data, "*rules.SignBeaconAttestationData").Target.Epoch, prefix4(unbox(rulesData[i].Data, "*rules.SignBeaconAttestationData").Domain)) ==> result[i] == rules.APPROVED)
+//@ ensures [prop-compl] action == ruler.ActionSignBeaconProposal && store_ok && len(rulesData) > 0 && (forall j int :: 0 <= j && j < len(rulesData) ==> rulesData[j] != nil && rulesData[j].Data != nil && len(rulesData[j].PubKey) == 48) && (forall j int, k int :: 0 <= j && j < k && k < len(rulesData) ==> key48(rulesData[j].PubKey) != key48(rulesData[k].PubKey)) && credentials != nil && credentials.Client != "" ==> (forall i int :: 0 <= i && i < len(rulesData) && hastype(rulesData[i].Data, "*rules.SignBeaconProposalData") && old(wmPropOk(bytes(rulesData[i].PubKey))) && propOK(old(wmPropL(bytes(rulesData[i].PubKey))), unbox(rulesData[i].Data, "*rules.SignBeaconProposalData").Slot, prefix4(unbox(rulesData[i].Data, "*rules.SignBeaconProposalData").Domain)) ==> result[i] == rules.APPROVED)
 //@ ensures [dbframe] forall k Bytes :: (forall i int :: !(0 <= i && i < len(rulesData) && ((action == ruler.ActionSignBeaconAttestation && k == attKey(bytes(rulesData[i].PubKey))) || (action == ruler.ActionSignBeaconProposal && k == propKey(bytes(rulesData[i].PubKey)))))) ==> ((k in db) <==> old(k in db)) && db[k] == old(db[k])
 //@ hint-after runRules@1 [heldisdeferred] forall k [48]byte :: deferred()[k] <==> held[k]
 //@ loop #1
@@ -54,6 +56,8 @@ package golang
 //@ ensures [prop] action == ruler.ActionSignBeaconProposal ==> (forall i int :: 0 <= i && i < len(rulesData) && result[i] == rules.APPROVED ==> hastype(rulesData[i].Data, "*rules.SignBeaconProposalData") && propApproved(bytes(rulesData[i].PubKey), unbox(rulesData[i].Data, "*rules.SignBeaconProposalData")))
 //@ ensures [gen] action == ruler.ActionSign ==> (forall i int :: 0 <= i && i < len(rulesData) && result[i] == rules.APPROVED ==> hastype(rulesData[i].Data, "*rules.SignData") && prefix4(unbox(rulesData[i].Data, "*rules.SignData").Domain) != ATT && prefix4(unbox(rulesData[i].Data, "*rules.SignData").Domain) != PROP)
 //@ ensures [access] action == ruler.ActionAccessAccount && credentials != nil && credentials.Client != "" && (forall j int :: 0 <= j && j < len(rulesData) ==> rulesData[j] != nil && rulesData[j].Data != nil) ==> (forall i int :: 0 <= i && i < len(rulesData) && hastype(rulesData[i].Data, "*rules.AccessAccountData") ==> result[i] == rules.APPROVED)
+//@ ensures [att-compl] action == ruler.ActionSignBeaconAttestation && store_ok && credentials != nil && credentials.Client != "" && (forall j int :: 0 <= j && j < len(rulesData) ==> rulesData[j].AccountName != "" && hastype(rulesData[j].Data, "*rules.SignBeaconAttestationData")) && (forall j int :: 0 <= j && j < len(rulesData) ==> old(wmAttOk(bytes(rulesData[j].PubKey)))) ==> (forall i int :: 0 <= i && i < len(rulesData) && attOK(old(wmAttS(bytes(rulesData[i].PubKey))), old(wmAttT(bytes(rulesData[i].PubKey))), unbox(rulesData[i].Data, "*rules.SignBeaconAttestationData").Source.Epoch, unbox(rulesData[i].Data, "*rules.SignBeaconAttestationData").Target.Epoch, prefix4(unbox(rulesData[i].Data, "*rules.SignBeaconAttestationData").Domain)) ==> result[i] == rules.APPROVED)
+//@ ensures [prop-compl] action == ruler.ActionSignBeaconProposal && store_ok && credentials != nil && credentials.Client != "" ==> (forall i int :: 0 <= i && i < len(rulesData) && hastype(rulesData[i].Data, "*rules.SignBeaconProposalData") && old(wmPropOk(bytes(rulesData[i].PubKey))) && propOK(old(wmPropL(bytes(rulesData[i].PubKey))), unbox(rulesData[i].Data, "*rules.SignBeaconProposalData").Slot, prefix4(unbox(rulesData[i].Data, "*rules.SignBeaconProposalData").Domain)) ==> result[i] == rules.APPROVED)
 //@ ensures [dbframe] forall k Bytes :: (forall i int :: !(0 <= i && i < len(rulesData) && ((action == ruler.ActionSignBeaconAttestation && k == attKey(bytes(rulesData[i].PubKey))) || (action == ruler.ActionSignBeaconProposal && k == propKey(bytes(rulesData[i].PubKey)))))) ==> ((k in db) <==> old(k in db)) && db[k] == old(db[k])
 //@ hint-after before:runRulesForMultipleBeaconAttestations@1 [bytesdistinct] forall j int, k int :: 0 <= j && j < k && k < len(rulesData) ==> bytes(rulesData[j].PubKey) != bytes(rulesData[k].PubKey)
 //@ hint-after before:Scatter@1 [bytesdistinct] locking(action) ==> (forall j int, k int :: 0 <= j && j < k && k < len(rulesData) ==> bytes(rulesData[j].PubKey) != bytes(rulesData[k].PubKey))
@@ -86,6 +90,8 @@ package golang
 //@ focus access : range access
 //@ focus verdict : range verdict
 //@ focus frame : range frame
+//@ focus prop-compl : range prop-compl dbframe
+//@ focus att-compl : range att-compl dbframe
 //@ requires s != nil && s.rules != nil
 //@ requires [extent] 0 <= offset && entries >= 1 && offset + entries <= len(rulesData)
 //@ requires [lens] len(results) == len(rulesData)
@@ -97,6 +103,8 @@ package golang
 //@ ensures-each [att] action == ruler.ActionSignBeaconAttestation && rulesData[i] != nil && results[i] == rules.APPROVED ==> hastype(rulesData[i].Data, "*rules.SignBeaconAttestationData") && attApproved(bytes(rulesData[i].PubKey), unbox(rulesData[i].Data, "*rules.SignBeaconAttestationData"))
 //@ ensures-each [prop] action == ruler.ActionSignBeaconProposal && rulesData[i] != nil && results[i] == rules.APPROVED ==> hastype(rulesData[i].Data, "*rules.SignBeaconProposalData") && propApproved(bytes(rulesData[i].PubKey), unbox(rulesData[i].Data, "*rules.SignBeaconProposalData"))
 //@ ensures-each [gen] action == ruler.ActionSign && rulesData[i] != nil && results[i] == rules.APPROVED ==> hastype(rulesData[i].Data, "*rules.SignData") && prefix4(unbox(rulesData[i].Data, "*rules.SignData").Domain) != ATT && prefix4(unbox(rulesData[i].Data, "*rules.SignData").Domain) != PROP
+//@ ensures-each [prop-compl] action == ruler.ActionSignBeaconProposal && store_ok && credentials != nil && credentials.Client != "" && rulesData[i] != nil && hastype(rulesData[i].Data, "*rules.SignBeaconProposalData") && old(wmPropOk(bytes(rulesData[i].PubKey))) && propOK(old(wmPropL(bytes(rulesData[i].PubKey))), unbox(rulesData[i].Data, "*rules.SignBeaconProposalData").Slot, prefix4(unbox(rulesData[i].Data, "*rules.SignBeaconProposalData").Domain)) ==> results[i] == rules.APPROVED
+//@ ensures-each [att-compl] action == ruler.ActionSignBeaconAttestation && store_ok && credentials != nil && credentials.Client != "" && rulesData[i] != nil && hastype(rulesData[i].Data, "*rules.SignBeaconAttestationData") && old(wmAttOk(bytes(rulesData[i].PubKey))) && attOK(old(wmAttS(bytes(rulesData[i].PubKey))), old(wmAttT(bytes(rulesData[i].PubKey))), unbox(rulesData[i].Data, "*rules.SignBeaconAttestationData").Source.Epoch, unbox(rulesData[i].Data, "*rules.SignBeaconAttestationData").Target.Epoch, prefix4(unbox(rulesData[i].Data, "*rules.SignBeaconAttestationData").Domain)) ==> results[i] == rules.APPROVED
 //@ ensures-each [access] action == ruler.ActionAccessAccount && credentials != nil && credentials.Client != "" && rulesData[i] != nil && hastype(rulesData[i].Data, "*rules.AccessAccountData") ==> results[i] == rules.APPROVED
 //@ loop #1
 //@ invariant [range] offset <= i && i <= offset + entries
@@ -108,6 +116,8 @@ package golang
 //@ invariant [att-rec] forall j int :: offset <= j && j < i && action == ruler.ActionSignBeaconAttestation && rulesData[j] != nil && results[j] == rules.APPROVED ==> wmAttOk(bytes(rulesData[j].PubKey)) && wmAttS(bytes(rulesData[j].PubKey)) == unbox(rulesData[j].Data, "*rules.SignBeaconAttestationData").Source.Epoch && wmAttT(bytes(rulesData[j].PubKey)) == unbox(rulesData[j].Data, "*rules.SignBeaconAttestationData").Target.Epoch
 //@ invariant [prop] forall j int :: offset <= j && j < i && action == ruler.ActionSignBeaconProposal && rulesData[j] != nil && results[j] == rules.APPROVED ==> hastype(rulesData[j].Data, "*rules.SignBeaconProposalData") && propApproved(bytes(rulesData[j].PubKey), unbox(rulesData[j].Data, "*rules.SignBeaconProposalData"))
 //@ invariant [gen] forall j int :: offset <= j && j < i && action == ruler.ActionSign && rulesData[j] != nil && results[j] == rules.APPROVED ==> hastype(rulesData[j].Data, "*rules.SignData") && prefix4(unbox(rulesData[j].Data, "*rules.SignData").Domain) != ATT && prefix4(unbox(rulesData[j].Data, "*rules.SignData").Domain) != PROP
+//@ invariant [prop-compl] forall j int :: offset <= j && j < i && action == ruler.ActionSignBeaconProposal && store_ok && credentials != nil && credentials.Client != "" && rulesData[j] != nil && hastype(rulesData[j].Data, "*rules.SignBeaconProposalData") && old(wmPropOk(bytes(rulesData[j].PubKey))) && propOK(old(wmPropL(bytes(rulesData[j].PubKey))), unbox(rulesData[j].Data, "*rules.SignBeaconProposalData").Slot, prefix4(unbox(rulesData[j].Data, "*rules.SignBeaconProposalData").Domain)) ==> results[j] == rules.APPROVED
+//@ invariant [att-compl] forall j int :: offset <= j && j < i && action == ruler.ActionSignBeaconAttestation && store_ok && credentials != nil && credentials.Client != "" && rulesData[j] != nil && hastype(rulesData[j].Data, "*rules.SignBeaconAttestationData") && old(wmAttOk(bytes(rulesData[j].PubKey))) && attOK(old(wmAttS(bytes(rulesData[j].PubKey))), old(wmAttT(bytes(rulesData[j].PubKey))), unbox(rulesData[j].Data, "*rules.SignBeaconAttestationData").Source.Epoch, unbox(rulesData[j].Data, "*rules.SignBeaconAttestationData").Target.Epoch, prefix4(unbox(rulesData[j].Data, "*rules.SignBeaconAttestationData").Domain)) ==> results[j] == rules.APPROVED
 //@ invariant [frame] forall j int :: !(offset <= j && j < i && rulesData[j] != nil) ==> results[j] == old(results[j])
 //@ invariant [dbframe] forall k Bytes :: (forall j int :: !(offset <= j && j < i && rulesData[j] != nil && ((action == ruler.ActionSignBeaconAttestation && k == attKey(bytes(rulesData[j].PubKey))) || (action == ruler.ActionSignBeaconProposal && k == propKey(bytes(rulesData[j].PubKey)))))) ==> ((k in db) <==> old(k in db)) && db[k] == old(db[k])
 //@ hint [inj-att] forall a Bytes, b Bytes :: bnorm(a) && bnorm(b) && attKey(a) == attKey(b) ==> a == b
@@ -120,16 +130,20 @@ package golang
 //@ requires [extent] 0 <= offset && entries >= 1 && offset + entries <= len(rulesData)
 //@ requires [lens] len(results) == len(rulesData) && len(metadatas) == len(rulesData) && len(reqData) == len(rulesData)
 //@ requires [nonnil] forall j int :: offset <= j && j < offset + entries ==> rulesData[j] != nil
+//@ requires [wellformed] forall j int :: offset <= j && j < offset + entries && rulesData[j] != nil ==> wellformedData(ruler.ActionSignBeaconAttestation, rulesData[j])
 //@ requires [blank] forall j int :: offset <= j && j < offset + entries ==> metadatas[j] == nil && reqData[j] == nil && results[j] == rules.UNKNOWN
 //@ modifies results[offset:offset+entries], metadatas[offset:offset+entries], reqData[offset:offset+entries]
 //@ ensures-each [verdict] results[i] == rules.UNKNOWN || results[i] == rules.FAILED
 //@ ensures-each [meta] metadatas[i] != nil ==> metadatas[i].PubKey == rulesData[i].PubKey
 //@ ensures-each [data] reqData[i] != nil ==> hastype(rulesData[i].Data, "*rules.SignBeaconAttestationData") && reqData[i] == unbox(rulesData[i].Data, "*rules.SignBeaconAttestationData")
+//@ ensures-each [ok] credentials != nil && credentials.Client != "" && (forall j int :: 0 <= j && j < len(rulesData) ==> rulesData[j].AccountName != "" && hastype(rulesData[j].Data, "*rules.SignBeaconAttestationData")) ==> results[i] == rules.UNKNOWN && metadatas[i] != nil && reqData[i] != nil
 //@ loop #1
 //@ invariant [range] offset <= i && i <= offset + entries
 //@ invariant [verdict] forall j int :: offset <= j && j < offset + entries ==> results[j] == rules.UNKNOWN || results[j] == rules.FAILED
 //@ invariant [meta] forall j int :: offset <= j && j < offset + entries && metadatas[j] != nil ==> metadatas[j].PubKey == rulesData[j].PubKey
 //@ invariant [data] forall j int :: offset <= j && j < offset + entries && reqData[j] != nil ==> hastype(rulesData[j].Data, "*rules.SignBeaconAttestationData") && reqData[j] == unbox(rulesData[j].Data, "*rules.SignBeaconAttestationData")
+//@ invariant [todo] forall k int :: i <= k && k < offset + entries ==> results[k] == rules.UNKNOWN
+//@ invariant [ok] credentials != nil && credentials.Client != "" && (forall j int :: 0 <= j && j < len(rulesData) ==> rulesData[j].AccountName != "" && hastype(rulesData[j].Data, "*rules.SignBeaconAttestationData")) ==> (forall k int :: offset <= k && k < i ==> results[k] == rules.UNKNOWN && metadatas[k] != nil && reqData[k] != nil)
 //@ invariant [frame] forall j int :: !(offset <= j && j < offset + entries) ==> results[j] == old(results[j]) && metadatas[j] == old(metadatas[j]) && reqData[j] == old(reqData[j])
 
 //@ func (*Service).runRulesForMultipleBeaconAttestations
@@ -143,12 +157,15 @@ package golang
 //@ ensures [verdicts] forall i int :: 0 <= i && i < len(result) ==> result[i] == rules.UNKNOWN || result[i] == rules.APPROVED || result[i] == rules.DENIED || result[i] == rules.FAILED
 //@ ensures [att] forall i int :: 0 <= i && i < len(result) && result[i] == rules.APPROVED ==> hastype(rulesData[i].Data, "*rules.SignBeaconAttestationData") && attApproved(bytes(rulesData[i].PubKey), unbox(rulesData[i].Data, "*rules.SignBeaconAttestationData"))
 //@ ensures [dbframe] forall k Bytes :: (forall i int :: 0 <= i && i < len(rulesData) ==> k != attKey(bytes(rulesData[i].PubKey))) ==> ((k in db) <==> old(k in db)) && db[k] == old(db[k])
+//@ ensures [att-compl] store_ok && credentials != nil && credentials.Client != "" && (forall j int :: 0 <= j && j < len(rulesData) ==> rulesData[j].AccountName != "" && hastype(rulesData[j].Data, "*rules.SignBeaconAttestationData")) && (forall j int :: 0 <= j && j < len(rulesData) ==> old(wmAttOk(bytes(rulesData[j].PubKey)))) ==> (forall i int :: 0 <= i && i < len(rulesData) && attOK(old(wmAttS(bytes(rulesData[i].PubKey))), old(wmAttT(bytes(rulesData[i].PubKey))), unbox(rulesData[i].Data, "*rules.SignBeaconAttestationData").Source.Epoch, unbox(rulesData[i].Data, "*rules.SignBeaconAttestationData").Target.Epoch, prefix4(unbox(rulesData[i].Data, "*rules.SignBeaconAttestationData").Domain)) ==> result[i] == rules.APPROVED)
+//@ hint-after before:OnSignBeaconAttestations@1 [ready] credentials != nil && credentials.Client != "" && (forall j int :: 0 <= j && j < len(rulesData) ==> rulesData[j].AccountName != "" && hastype(rulesData[j].Data, "*rules.SignBeaconAttestationData")) ==> len(metadatas) == len(reqData) && (forall j int :: 0 <= j && j < len(rulesData) ==> metadatas[j] != nil && reqData[j] != nil && metadatas[j].PubKey == rulesData[j].PubKey && reqData[j] == unbox(rulesData[j].Data, "*rules.SignBeaconAttestationData") && reqData[j].Source != nil && reqData[j].Target != nil)
 //@ loop #1
 //@ invariant [range] 0 <= _n && _n <= len(rulesData) && len(results) == len(rulesData) && fresh(results)
 //@ invariant [unknown] forall j int :: 0 <= j && j < _n ==> results[j] == rules.UNKNOWN
 //@ loop #2
 //@ invariant [range] 0 <= _n && _n <= len(results)
 //@ invariant [nofail] forall j int :: 0 <= j && j < _n ==> results[j] != rules.FAILED
+//@ invariant [allok] credentials != nil && credentials.Client != "" && (forall j int :: 0 <= j && j < len(rulesData) ==> rulesData[j].AccountName != "" && hastype(rulesData[j].Data, "*rules.SignBeaconAttestationData")) ==> (forall k int :: 0 <= k && k < len(rulesData) ==> results[k] == rules.UNKNOWN && metadatas[k] != nil && reqData[k] != nil)
 
 // ---- construction: the object handed out has every collaborator the methods rely on ----
 //@ func (Parameter).apply
